@@ -46,7 +46,7 @@ def gen_script(rng, ha, n, pend_p, end_kind):
         else:
             sc += [1, rng.randint(0, 60)]
     if end_kind == 1:
-        sc += [4, rng.randint(1, 9)]
+        sc += rng.choice([[4, rng.randint(1, 9)], [4, rng.randint(1, 9)], [20, 0], [21, 0], [22, 0]])
     elif end_kind == 2:
         sc += [5, 0]
         if rng.random() < 0.5:
@@ -71,7 +71,7 @@ class Sim:
                 return ("yield", 0)
             if k == 3:
                 return ("pend", a)
-            if k in (4, 5):
+            if k in (4, 5, 20, 21, 22):
                 self.ended = True
                 return ("end", 0)
         self.ended = True
@@ -82,7 +82,7 @@ def close_case(c):
     """used while shrinking: append the completions an outstanding access still needs, so that the oracle's
     closed-case rule (no trailing Pending) stays meaningful on sub-sequences"""
     ops = [list(o) for o in c.ops]
-    if c.engine.startswith("genc") or not ops or not ops[0] or ops[0][0] != 0 or len(ops[0]) % 2 != 1:
+    if c.engine.startswith("genc") or c.engine == "gend" or not ops or not ops[0] or ops[0][0] != 0 or len(ops[0]) % 2 != 1:
         return c
     ha = c.engine == "gen1"
     sc = ops[0][1:]
@@ -156,6 +156,14 @@ FIXED_SCRIPTS = [
     [3, 1],
     [4, 2],
 ]
+# bodies ending with the library's own await_canceled_exception (thrown, derived, or from a dropped promise)
+CANCEL_SCRIPTS = [
+    [1, 1, 1, 2, 20, 0],
+    [6, 101, 1, 1, 3, 1, 21, 0],
+    [1, 1, 22, 0, 1, 2],
+    [22, 0],
+    [3, 1, 1, 1, 20, 0],
+]
 FIXED_SCRIPTS1 = [
     [8, 0, 1, 1, 9, 0, 1, 3],
     [1, 1, 8, 0, 9, 0, 3, 1, 9, 0, 8, 0, 1, 2],
@@ -169,7 +177,7 @@ def gen(seed, tier):
     cases = []
     b = 0
     # uniform-style and exhaustive mixed-style sweeps over fixed scripts
-    for eng, scripts, styles in (("gen0", FIXED_SCRIPTS, STYLES0), ("gen1", FIXED_SCRIPTS + FIXED_SCRIPTS1, STYLES1)):
+    for eng, scripts, styles in (("gen0", FIXED_SCRIPTS + CANCEL_SCRIPTS, STYLES0), ("gen1", FIXED_SCRIPTS + FIXED_SCRIPTS1 + CANCEL_SCRIPTS[:2], STYLES1)):
         for sc in scripts:
             for y in styles:
                 cases.append(gen_case(rng, eng, "u%d" % b, [y], sc, 8, None, False)); b += 1
@@ -276,6 +284,8 @@ def gen_ctl(seed, tier):
         [6, 101, 3, 1, 1, 1, 6, 102, 3, 2, 1, 2, 7, 0, 3, 3],
         [3, 1, 3, 2, 5, 0],
         [1, 5, 2, 9, 3, 1, 1, 6],
+        [3, 1, 1, 1, 20, 0],
+        [1, 1, 3, 1, 22, 0],
     ]
     scripts1 = [
         [8, 0, 3, 1, 1, 1, 9, 0, 3, 2, 1, 3],
@@ -324,5 +334,19 @@ def gen_ctl(seed, tier):
     return cases
 
 
+def gen_deep(seed, tier):
+    """engine gend: long synchronous generators read to the end, -O2 without sanitizers: no native stack per item"""
+    rng = random.Random(seed * 7368787 + 139)
+    cases = []
+    for k, (n, y) in enumerate([(3000000, 3), (3000000, 4), (1000000, 0), (1000000, 1), (1000000, 2), (0, 3), (1, 1), (2, 4)]):
+        cases.append(Case("gend", "p%d" % k, [[30, n, y]]))
+    for i in range(6 if tier == "quick" else 40):
+        cases.append(Case("gend", "q%d" % i, [[30, rng.choice([0, 1, 2, 1000, 65536, 300000, 2000000]) + rng.randint(0, 3), rng.randint(0, 4)]
+                                             for _ in range(rng.randint(1, 3))]))
+    cases.append(Case("gend", "bad", [[30, 5, 9], [31, 1, 1], [30, -1, 0]]))
+    return cases
+
+
 PARTS = [{"name": "vm_gen", "harness": "vm_gen.cpp", "gen": gen, "timeout_case": 3},
+         {"name": "deep_gen", "harness": "deep_gen.cpp", "gen": gen_deep, "timeout_case": 20, "flags": "-O2 -g", "no_shrink": True},
          {"name": "ctl_genc", "harness": "vm_genc.cpp", "gen": gen_ctl, "timeout_case": 10}]
